@@ -38,6 +38,8 @@ func checkC19(p *Program, r *Reporter) {
 	}
 	r.Rule("E2-LOCKPAIR", "every Lock/RLock is released on every exit", 4)
 	e.ruleLockPairing(r, "E2-LOCKPAIR", fns)
+	// files are the other shared resource of concurrent uploads: a per-segment file belongs to one track
+	trackPathRule(p, r)
 }
 
 func sortedKeys(m map[string]bool) []string {
